@@ -137,6 +137,9 @@ func buildScratch(tag string, race bool) (*scratch, int) {
 		}
 		os.WriteFile(filepath.Join(wdir, filepath.Base(f)), b, 0o644)
 	}
+	if b, err := os.ReadFile(filepath.Join(verifDir, "scratch_extra", "catalog_zz_verif_export.go")); err == nil {
+		os.WriteFile(filepath.Join(dir, "repo", "catalog", "zz_verif_export.go"), b, 0o644)
+	}
 	build := func(out string, race bool) error {
 		args := []string{"build"}
 		if race {
@@ -229,8 +232,6 @@ func cmdRun(prop, tier string) int {
 		return infra("simulator self-test failed: %v", err)
 	}
 
-	outDir := filepath.Join(s.dir, "out")
-	os.MkdirAll(outDir, 0o755)
 	nw := runtime.NumCPU()
 	if v := os.Getenv("VERIF_WORKERS"); v != "" {
 		if n, err := strconv.Atoi(v); err == nil && n > 0 {
@@ -241,59 +242,31 @@ func cmdRun(prop, tier string) int {
 	if v := os.Getenv("VERIF_MAX_SECONDS"); v != "" {
 		maxSec, _ = strconv.Atoi(v)
 	}
-	var mu sync.Mutex
+	outDir := filepath.Join(s.dir, "out")
+	os.MkdirAll(outDir, 0o755)
+	type batch struct {
+		bin, dir string
+		race     bool
+	}
+	batches := []batch{{s.worker, outDir, false}}
+	if race {
+		rd := filepath.Join(s.dir, "out-race")
+		os.MkdirAll(rd, 0o755)
+		batches = append(batches, batch{s.workerRc, rd, true})
+	}
 	var crashes []caseRec
 	var infraErr error
-	var wg sync.WaitGroup
-	for k := 0; k < nw; k++ {
-		wg.Add(1)
-		go func(k int) {
-			defer wg.Done()
-			from := 0
-			for attempt := 0; attempt < 200; attempt++ {
-				bin := s.worker
-				args := []string{"run", "-prop", prop, "-tier", tier, "-seed", fmt.Sprint(seed), "-shard", fmt.Sprintf("%d/%d", k, nw), "-from", fmt.Sprint(from), "-out", outDir}
-				if maxSec > 0 {
-					args = append(args, "-max-seconds", fmt.Sprint(maxSec))
-				}
-				c := exec.Command(bin, args...)
-				c.Env = append(s.env(), "SIM_WORKER_RACE="+s.workerRc, "GORACE=halt_on_error=0 history_size=7")
-				var stderr bytes.Buffer
-				c.Stderr = &stderr
-				c.Stdout = &stderr
-				err := c.Run()
-				if err == nil {
-					return
-				}
-				// the worker died: find the case it was in
-				idx, done := lastBegun(filepath.Join(outDir, fmt.Sprintf("progress.%d.log", k)))
-				if done || idx < 0 {
-					mu.Lock()
-					infraErr = fmt.Errorf("worker %d failed outside a case: %v\n%s", k, err, tail(stderr.String(), 2000))
-					mu.Unlock()
-					return
-				}
-				code := -1
-				if ee, ok := err.(*exec.ExitError); ok {
-					code = ee.ExitCode()
-				}
-				if code == 97 {
-					mu.Lock()
-					infraErr = fmt.Errorf("worker %d reported an infrastructure error in case %d:\n%s", k, idx, tail(stderr.String(), 2000))
-					mu.Unlock()
-					return
-				}
-				class, sig := classifyDeath(code, stderr.String())
-				rec := caseRec{"property": prop, "index": idx, "seed": seed, "class": class, "signature": sig,
-					"detail": tail(stderr.String(), 1500), "died": true}
-				mu.Lock()
-				crashes = append(crashes, rec)
-				mu.Unlock()
-				from = idx + 1
-			}
-		}(k)
+	fmt.Printf("simcheck: build+selftests %.1fs\n", time.Since(start).Seconds())
+	for _, b := range batches {
+		t0 := time.Now()
+		cr, err := fanOut(s, b.bin, b.dir, b.race, prop, tier, seed, nw, maxSec)
+		fmt.Printf("simcheck: batch race=%v %.1fs\n", b.race, time.Since(t0).Seconds())
+		crashes = append(crashes, cr...)
+		if err != nil {
+			infraErr = err
+			break
+		}
 	}
-	wg.Wait()
 	if infraErr != nil {
 		return infra("%v", infraErr)
 	}
@@ -303,27 +276,35 @@ func cmdRun(prop, tier string) int {
 
 	// collect
 	var viols []caseRec
-	files, _ := filepath.Glob(filepath.Join(outDir, "violations.*.jsonl"))
-	sort.Strings(files)
-	for _, f := range files {
-		fh, err := os.Open(f)
-		if err != nil {
-			continue
-		}
-		sc := bufio.NewScanner(fh)
-		sc.Buffer(make([]byte, 1<<20), 1<<28)
-		for sc.Scan() {
-			var v caseRec
-			if json.Unmarshal(sc.Bytes(), &v) == nil {
-				viols = append(viols, v)
+	var outDirs []string
+	for _, b := range batches {
+		outDirs = append(outDirs, b.dir)
+		files, _ := filepath.Glob(filepath.Join(b.dir, "violations.*.jsonl"))
+		sort.Strings(files)
+		for _, f := range files {
+			fh, err := os.Open(f)
+			if err != nil {
+				continue
 			}
+			sc := bufio.NewScanner(fh)
+			sc.Buffer(make([]byte, 1<<20), 1<<28)
+			for sc.Scan() {
+				var v caseRec
+				if json.Unmarshal(sc.Bytes(), &v) == nil {
+					if b.race {
+						v["race_build"] = true
+					}
+					viols = append(viols, v)
+				}
+			}
+			fh.Close()
 		}
-		fh.Close()
 	}
 	// cases in which the worker died: materialise the case with `dump`
 	for _, cr := range crashes {
 		idx := int(cr["index"].(int))
-		out, err := runWorker(s, 60*time.Second, "dump", "-prop", prop, "-tier", tier, "-seed", fmt.Sprint(seed), "-case", fmt.Sprint(idx))
+		crRace, _ := cr["race_build"].(bool)
+		out, err := runWorkerBin(s, crRace, 60*time.Second, "dump", "-prop", prop, "-tier", tier, "-seed", fmt.Sprint(seed), "-case", fmt.Sprint(idx))
 		if err != nil {
 			return infra("dump of crashed case %d failed: %v", idx, err)
 		}
@@ -333,6 +314,9 @@ func cmdRun(prop, tier string) int {
 			var v caseRec
 			if json.Unmarshal([]byte(line), &v) != nil {
 				continue
+			}
+			if crRace {
+				v["race_build"] = true
 			}
 			res := replayCase(s, v, 120*time.Second)
 			if res.died {
@@ -349,7 +333,7 @@ func cmdRun(prop, tier string) int {
 		}
 	}
 
-	stats := aggregateStats(outDir)
+	stats := aggregateStats(outDirs)
 	groups := map[string]*group{}
 	var order []string
 	for _, v := range viols {
@@ -408,6 +392,77 @@ func cmdRun(prop, tier string) int {
 	fmt.Printf("simcheck: property=%s tier=%s cases=%v executions=%v violations=%d (unlisted %d) wall=%.1fs\n",
 		prop, tier, stats["cases_run"], stats["executions"], len(viols), nUnknown, time.Since(start).Seconds())
 	return exit
+}
+
+// fanOut runs one batch of worker shards (crash-isolated processes) and returns
+// the cases in which a worker process died.
+func fanOut(s *scratch, bin, outDir string, race bool, prop, tier string, seed uint64, nw, maxSec int) ([]caseRec, error) {
+	var mu sync.Mutex
+	var crashes []caseRec
+	var infraErr error
+	var wg sync.WaitGroup
+	for k := 0; k < nw; k++ {
+		wg.Add(1)
+		go func(k int) {
+			defer wg.Done()
+			from := 0
+			for attempt := 0; attempt < 200; attempt++ {
+				args := []string{"run", "-prop", prop, "-tier", tier, "-seed", fmt.Sprint(seed), "-shard", fmt.Sprintf("%d/%d", k, nw), "-from", fmt.Sprint(from), "-out", outDir}
+				if maxSec > 0 {
+					args = append(args, "-max-seconds", fmt.Sprint(maxSec))
+				}
+				// Pin each worker to one core: the goroutine hand-off of the simulated
+				// scheduler is a pipe write + blocking read, five times cheaper when
+				// waker and wakee share a core. The schedule itself does not depend on it.
+				c := exec.Command(bin, args...)
+				if ts, err := exec.LookPath("taskset"); err == nil && os.Getenv("VERIF_NO_PIN") == "" {
+					c = exec.Command(ts, append([]string{"-c", fmt.Sprint(k % runtime.NumCPU()), bin}, args...)...)
+				}
+				c.Env = append(s.env(), raceEnv(outDir, race))
+				var stderr bytes.Buffer
+				c.Stderr = &stderr
+				c.Stdout = &stderr
+				err := c.Run()
+				if err == nil {
+					return
+				}
+				// the worker died: find the case it was in
+				idx, done := lastBegun(filepath.Join(outDir, fmt.Sprintf("progress.%d.log", k)))
+				if done || idx < 0 {
+					mu.Lock()
+					infraErr = fmt.Errorf("worker %d failed outside a case: %v\n%s", k, err, tail(stderr.String(), 2000))
+					mu.Unlock()
+					return
+				}
+				code := -1
+				if ee, ok := err.(*exec.ExitError); ok {
+					code = ee.ExitCode()
+				}
+				if code == 97 {
+					mu.Lock()
+					infraErr = fmt.Errorf("worker %d reported an infrastructure error in case %d:\n%s", k, idx, tail(stderr.String(), 3000))
+					mu.Unlock()
+					return
+				}
+				class, sig := classifyDeath(code, stderr.String())
+				rec := caseRec{"property": prop, "index": idx, "seed": seed, "class": class, "signature": sig,
+					"detail": tail(stderr.String(), 1500), "died": true, "race_build": race}
+				mu.Lock()
+				crashes = append(crashes, rec)
+				mu.Unlock()
+				from = idx + 1
+			}
+		}(k)
+	}
+	wg.Wait()
+	return crashes, infraErr
+}
+
+func raceEnv(outDir string, race bool) string {
+	if race {
+		return "GORACE=log_path=" + filepath.Join(outDir, "race") + " halt_on_error=0 history_size=7 exitcode=0"
+	}
+	return "GORACE=halt_on_error=0"
 }
 
 func sanitize(s string) string {
@@ -505,9 +560,13 @@ func firstLibFrame(stderr string) string {
 	return "?"
 }
 
-func runWorker(s *scratch, timeout time.Duration, args ...string) (string, error) {
-	c := exec.Command(s.worker, args...)
-	c.Env = append(s.env(), "SIM_WORKER_RACE="+s.workerRc, "GORACE=halt_on_error=0 history_size=7")
+func runWorkerBin(s *scratch, race bool, timeout time.Duration, args ...string) (string, error) {
+	bin := s.worker
+	if race && s.workerRc != "" {
+		bin = s.workerRc
+	}
+	c := exec.Command(bin, args...)
+	c.Env = append(s.env(), raceEnv(filepath.Join(s.dir, "replay-race"), race && s.workerRc != ""))
 	var out, errb bytes.Buffer
 	c.Stdout = &out
 	c.Stderr = &errb
@@ -551,8 +610,15 @@ func replayCase(s *scratch, c caseRec, timeout time.Duration) replayResult {
 	b, _ := json.Marshal(c)
 	os.WriteFile(f, b, 0o644)
 	defer os.Remove(f)
-	cmd := exec.Command(s.worker, "replay", f)
-	cmd.Env = append(s.env(), "SIM_WORKER_RACE="+s.workerRc, "GORACE=halt_on_error=0 history_size=7")
+	bin := s.worker
+	isRace, _ := c["race_build"].(bool)
+	isRace = isRace && s.workerRc != ""
+	if isRace {
+		bin = s.workerRc
+		os.MkdirAll(filepath.Join(s.dir, "replay-race"), 0o755)
+	}
+	cmd := exec.Command(bin, "replay", f)
+	cmd.Env = append(s.env(), raceEnv(filepath.Join(s.dir, "replay-race"), isRace))
 	var out, errb bytes.Buffer
 	cmd.Stdout = &out
 	cmd.Stderr = &errb
@@ -651,11 +717,15 @@ func loadKnown(prop string) map[string]string {
 
 // ------------------------------------------------------------------ stats
 
-func aggregateStats(outDir string) map[string]any {
+func aggregateStats(outDirs []string) map[string]any {
 	agg := map[string]any{}
 	distinct := map[string]map[string]bool{"distinct": {}, "distinct_nontrivial_keys": {}}
-	files, _ := filepath.Glob(filepath.Join(outDir, "stats.*.jsonl"))
-	sort.Strings(files)
+	var files []string
+	for _, d := range outDirs {
+		ff, _ := filepath.Glob(filepath.Join(d, "stats.*.jsonl"))
+		sort.Strings(ff)
+		files = append(files, ff...)
+	}
 	for _, f := range files {
 		b, err := os.ReadFile(f)
 		if err != nil {
